@@ -20,7 +20,8 @@ RULE = (
     "wide signatures with 5..8 parameters. Every argument and default is a unique object (defaults also from a hostile pool: None, "
     "an object whose __eq__/__ne__ claim equality with everything). On each function a precondition asking for everything "
     "(+_ARGS,_KWARGS), one precondition per single parameter, a snapshot capture, a postcondition (+result, OLD) and an error "
-    "factory are attached; a twin function asks for a name that is not a parameter. Oracle: what an undecorated twin of the "
+    "factory (keyword-only parameters, some with defaults of their own that must never replace the values of the call) are attached; a "
+    "twin function asks for a name that is not a parameter. Oracle: what an undecorated twin of the "
     "function receives for the same call and the object the body itself received (identity). Non-trivial = call with at least one named parameter; "
     "distinct = (signature, call shape, callable kind)."
 )
